@@ -1,5 +1,6 @@
 From Coq Require Import List Arith Bool Lia.
-From Wire Require Import Sets SetsWF Acyclic Solve Names Front Exec Model ModelThms Bridge.
+From Coq Require Import Relations.
+From Wire Require Import Sets SetsWF Acyclic Solve Used Names Front Exec Model ModelThms Bridge.
 Import ListNotations.
 
 (* Every provider map that Model.process_set accepts satisfies the well-formedness checker wfb, so the planner
@@ -247,4 +248,62 @@ Theorem accepted_acyclic tyorder root args pm :
 Proof.
   intros Hp. exact (core_acyclic tyorder pm args (process_set_wfb tyorder args root pm Hp)
                       (process_set_verify tyorder args root pm Hp)).
+Qed.
+
+(* ---------------- C08: the used list of an accepted, successfully planned injector, exactly ---------------- *)
+Lemma indexed_init_iff args x : indexed (init_state args) x = true <-> In x args.
+Proof.
+  unfold indexed, init_state. cbn [index]. split.
+  - destruct (lookup (combine args (map Slot (seq 0 (List.length args)))) x) eqn:E; [|discriminate]. intros _.
+    clear -E. revert E. generalize (map Slot (seq 0 (List.length args))) as vs.
+    induction args as [|a r IH]; intros vs E; [discriminate|]. destruct vs as [|v vs]; [discriminate|].
+    cbn [combine lookup] in E. destruct (a =? x) eqn:Ea; [apply Nat.eqb_eq in Ea; left; auto|right; eapply IH; eauto].
+  - intros Hin. destruct (lookup (combine args (map Slot (seq 0 (List.length args)))) x) eqn:E; auto.
+    exfalso. revert E. apply lookup_combine_some; auto. rewrite map_length, seq_length. reflexivity.
+Qed.
+
+Theorem accepted_used tyorder root args out pm s usedk :
+  process_set tyorder args root = inl pm ->
+  machine2 (core_pm pm) (List.length args) (solve_fuel pm) [out] (init_state args) [] = Some (s, usedk) ->
+  forall x, In x usedk <-> (reach (core_pm pm) out x /\ core_pm pm x <> None /\ ~ In x args).
+Proof.
+  intros Hp Hm x.
+  pose proof (process_set_wfb tyorder args root pm Hp) as Hwf.
+  pose proof (process_set_verify tyorder args root pm Hp) as Hver.
+  pose proof (init_args_indexed pm args Hwf) as Hai.
+  rewrite (machine2_used_exactly _ _ _ _ _ _ _ Hai Hm x).
+  pose proof (solve_is_visit tyorder pm args out Hwf Hver _ _ _ Hm) as Hv.
+  pose proof (visit_indexes _ _ _ _ _ _ Hai Hv) as Hio.
+  rewrite init_is_s_init in Hv.
+  pose proof (visit_ErrInv _ _ args out _ out _ _ Hv (rt_refl _ _ _) (ErrInv_init _ _ args (ARGS pm args Hwf) out)) as HE.
+  assert (Hnotin : indexed (init_state args) x = false <-> ~ In x args).
+  { rewrite <- indexed_init_iff. destruct (indexed (init_state args) x); split; intros; try discriminate; auto. exfalso; auto. }
+  split.
+  - intros (A & B & C). split; [|split; [exact C|apply Hnotin; exact B]].
+    destruct (e_reach _ _ _ _ _ HE x A) as [Hi|Hr]; auto.
+    rewrite <- init_is_s_init in Hi. rewrite B in Hi. discriminate.
+  - intros (Hr & C & Hn). split; [|split; [apply Hnotin; exact Hn|exact C]].
+    assert (Hcl : forall a b, clos_refl_trans_1n nat (dep (core_pm pm)) a b -> indexed s a = true -> indexed s b = true).
+    { intros a b Hab. induction Hab as [|a0 y z D _ IH]; auto. intros Ha. apply IH. eapply (e_closed _ _ _ _ _ HE); eauto. }
+    eapply Hcl; [apply clos_rt_rt1n; exact Hr|exact Hio].
+Qed.
+
+(* hence: a direct item is reported unused exactly when no type the result needs (other than an injector parameter)
+   has it as its source *)
+Theorem accepted_unused_iff tyorder root args out pm s usedk d :
+  process_set tyorder args root = inl pm ->
+  machine2 (core_pm pm) (List.length args) (solve_fuel pm) [out] (init_state args) [] = Some (s, usedk) ->
+  (In d (verify_args_used root (flat_map (src_of pm) usedk)) <->
+   In d (verify_args_used root (flat_map (src_of pm)
+           (filter (fun x => negb (existsb (Nat.eqb x) args)) usedk)))).
+Proof.
+  intros Hp Hm.
+  assert (Hall : forall x, In x usedk -> ~ In x args) by (intros x Hx; apply (accepted_used tyorder root args out pm s usedk Hp Hm x); exact Hx).
+  assert (Heq : filter (fun x => negb (existsb (Nat.eqb x) args)) usedk = usedk).
+  { clear -Hall. induction usedk as [|y r IH]; cbn; auto.
+    assert (Hy : existsb (Nat.eqb y) args = false).
+    { destruct (existsb (Nat.eqb y) args) eqn:E; auto. apply existsb_exists in E. destruct E as (z & Hz & E).
+      apply Nat.eqb_eq in E. subst z. exfalso. apply (Hall y); [left; reflexivity|exact Hz]. }
+    rewrite Hy. cbn. f_equal. apply IH. intros x Hx. apply Hall. right. exact Hx. }
+  rewrite Heq. tauto.
 Qed.
